@@ -7,12 +7,16 @@
 set -u
 id="$1"; patch="$(readlink -f "$2")"; tier="${3:-quick}"
 name="$(basename "$(dirname "$patch")")"
-wt=$(mktemp -d /tmp/verif-try-XXXXXX); rmdir "$wt"
+# fixed path per (property, change): the go build cache is keyed by directory, random names would fill the disk
+wt=/tmp/verif-try-$id-$name; git -C /repo worktree remove --force "$wt" >/dev/null 2>&1; rm -rf "$wt"
 git -C /repo worktree add --detach -f "$wt" HEAD >/dev/null 2>&1 || { echo "try_seeded: cannot create worktree" >&2; exit 2; }
-cleanup() { git -C /repo worktree remove --force "$wt" >/dev/null 2>&1; rm -rf "$wt"; tag=$(echo "$wt" | tr -c 'A-Za-z0-9' '_'); rm -f /verif/harness/bin/verifsim-$tag /verif/harness/.alt-$tag.*; }
+# the checks run from a private snapshot of /verif (check, harness, known findings), so /verif can be edited meanwhile
+vs="$wt-v"; rm -rf "$vs"; mkdir -p "$vs"
+rsync -a --exclude bin --exclude '.alt*' --exclude '.selftest*' /verif/check /verif/harness /verif/known_findings.json "$vs/"
+cleanup() { git -C /repo worktree remove --force "$wt" >/dev/null 2>&1; rm -rf "$wt" "$vs"; }
 trap cleanup EXIT
 if ! git -C "$wt" apply "$patch" 2>/dev/null; then echo "RESULT $id $name: PATCH-DOES-NOT-APPLY"; exit 2; fi
-out=$(cd /verif && VERIF_REPO="$wt" ./check "$id" "$tier" -no-evidence 2>&1); rc=$?
+out=$(cd "$vs" && VERIF_REPO="$wt" ./check "$id" "$tier" -no-evidence 2>&1); rc=$?
 echo "$out" | grep -E "^violation|^  |KNOWN-FINDING|harness error|nondeterminism" | head -6
 case $rc in
   1) echo "RESULT $id $name: DETECTED" ;;
